@@ -72,14 +72,27 @@ class World:
         self.aa_exp = p.issue(self.root, "aa-expired", issue=[sc.perm_explicit([36, 37], 1)], start=now - 100000,
                               duration=("seconds", 3600))
         self.at_xaa = p.issue(self.aa_exp, app=[36], **live)
+        # validity periods in every other IEEE 1609.2 Duration unit (the receiver converts each with its own factor; the
+        # message generator below places generation times at start / end -1, 0, +1 us of the TRUE period): a one-year
+        # ticket in its final hour, sixtyHours, and the sub-second units (long expired)
+        self.at_yr = p.issue(self.aa1, app=[36], start=now - sc.YEAR_S + 3600, duration=("years", 1))
+        self.at_yr3 = p.issue(self.aa1, app=[36, 37], start=now - 2 * sc.YEAR_S, duration=("years", 3))
+        self.at_60h = p.issue(self.aa1, app=[36], start=now - 100, duration=("sixtyHours", 1))
+        self.at_ms = p.issue(self.aa1, app=[36], start=now - 10, duration=("milliseconds", 500))
+        self.at_us = p.issue(self.aa1, app=[36], start=now, duration=("microseconds", 65535))
+        # appPermissions entries WITH Service Specific Permissions (authorisation is by ITS-AID)
+        self.at_ssp = p.issue(self.aa1, app=[{"psid": 36, "ssp": ("bitmapSsp", b"\x01\xff\xfc")},
+                                             {"psid": 37, "ssp": ("opaque", b"\x01\x02")}, {"psid": 638}], **live)
+        units = [self.at_yr, self.at_yr3, self.at_60h, self.at_ms, self.at_us, self.at_ssp]
         # attacker PKI
         self.eroot = p.root("evil-root", issue=[sc.perm_all(3)], **live)
         self.eaa = p.issue(self.eroot, "evil-aa", issue=[sc.perm_all(1)], **live)
         self.eat = p.issue(self.eaa, app=[36, 37], **live)
         own = [self.at_a, self.at_b, self.at_x, self.at_y, self.at_c, self.at_d, self.at_r, self.at_exp, self.at_fut, self.eat,
-               self.at_xaa]
+               self.at_xaa] + units
+        self.units = units
         self.honest = [self.aa1, self.aa2, self.aa3, self.at_a, self.at_b, self.at_x, self.at_y, self.at_c, self.at_d,
-                       self.at_r, self.at_exp, self.at_fut, self.aa_exp, self.at_xaa]
+                       self.at_r, self.at_exp, self.at_fut, self.aa_exp, self.at_xaa] + units
         self.signers = own                      # tickets whose private key the harness holds
         aa1d = ("sha256AndDigest", self.aa1.as_hashedid8())
         raw = []
@@ -244,13 +257,16 @@ def gen_history(ctx, w, n_ops):
                 ch = [rng.choice(w.objs) for _ in range(k)]
             ops.append(("vseq", [c.certificate for c in ch]))
         else:
-            if rng.random() < 0.6:
+            r2 = rng.random()
+            if r2 < 0.5:
                 at = rng.choice([w.at_a, w.at_b, w.at_x, w.at_y, w.at_c, w.at_r])
+            elif r2 < 0.65:
+                at = rng.choice(w.units)
             else:
                 at = rng.choice(w.signers + [w.forged, w.escal, w.at_sub, w.emptyapp, w.at_suball])
             own_app = [e["psid"] for e in at.certificate["toBeSigned"].get("appPermissions", [])] or UNIVERSE
             psid = rng.choice(own_app) if rng.random() < 0.6 else rng.choice(UNIVERSE + [36, 36, 37])
-            gt = (w.now + 5) * 10**6 + rng.randrange(10**6) if rng.random() < 0.45 else gen_time(rng, w, at)
+            gt = (w.now + 5) * 10**6 + rng.randrange(10**6) if rng.random() < (0.45 if at not in w.units else 0.2) else gen_time(rng, w, at)
             hi = {"psid": psid, "generationTime": gt}
             if psid == 37 and rng.random() < 0.8:
                 hi["generationLocation"] = {"latitude": 415000000, "longitude": 21000000, "elevation": 0xF000}
@@ -561,6 +577,33 @@ def witness(kind):
                         bad.append(f"message with ITS-AID {psid} accepted under a ticket whose appPermissions are []")
                 except Exception:  # noqa: BLE001 - raising is not accepting
                     pass
+        elif kind == "time_after_accept":
+            # histories on ONE VerifyService: an in-validity message of a ticket first (accepted: whatever the service
+            # remembers about the ticket now), then messages of the SAME ticket generated outside its validity --
+            # digest and certificate signer, before start / 1 us after end / a day after
+            lo, hi_us = sc.validity_us(at.certificate)
+            for first in (("certificate", [at.certificate]), None):
+                st1 = sc.RealStation(p.backend, [root], [aa], [] if first else [at])
+                m0 = sc.make_signed(p.backend, at.key_id, {"psid": 36, "generationTime": gt}, b"in", first or ("digest", at.as_hashedid8()))
+                if st1.verify(m0).report.value != 0:
+                    continue          # not this clause (C05)
+                for t in (lo - 1, hi_us + 1, hi_us + 86400 * 10**6, max(0, lo - 10**12)):
+                    for signer in (("digest", at.as_hashedid8()), ("certificate", [at.certificate])):
+                        m = sc.make_signed(p.backend, at.key_id, {"psid": 36, "generationTime": t}, b"out", signer)
+                        if st1.verify(m).report.value == 0:
+                            bad.append(f"after one in-validity message of the ticket, its message with generationTime {t} outside "
+                                       f"the validity [{lo},{hi_us}] ({signer[0]} signer) is accepted")
+        elif kind == "units":
+            # one ticket per IEEE 1609.2 Duration unit: 1 us before the start and 1 us after the end of the TRUE period
+            # (a year = 31556952 s) are outside
+            for unit, cnt in (("microseconds", 65535), ("milliseconds", 500), ("seconds", 7200), ("minutes", 90), ("hours", 5),
+                              ("sixtyHours", 2), ("years", 1), ("years", 3)):
+                t_ = p.issue(aa, app=[36], start=now - 50, duration=(unit, cnt))
+                lo, hi_us = sc.validity_us(t_.certificate)
+                for t in (lo - 1, hi_us + 1):
+                    m = sc.make_signed(p.backend, t_.key_id, {"psid": 36, "generationTime": t}, b"abc", ("certificate", [t_.certificate]))
+                    if st.verify(m).report.value == 0:
+                        bad.append(f"message with generationTime {t} accepted under a ticket valid [{lo},{hi_us}] ({cnt} {unit})")
         elif kind == "foreignatt":
             # a ticket NAMING the trusted AA as issuer, signed by an attacker CA, offered with that CA attached
             eroot = p.root("evil-root", **live)
